@@ -19,9 +19,10 @@ class MustFlow:
     """gen(node) -> set of facts established by evaluating an *expression statement / test* node (no nested bodies).
     After run(fn), `before[id(stmt)]` is the set of facts that hold whenever stmt starts executing."""
 
-    def __init__(self, gen, kill=None):
+    def __init__(self, gen, kill=None, test_facts=None):
         self.gen = gen
         self.kill = kill or (lambda node: set())
+        self.test_facts = test_facts or (lambda test: (set(), set()))
         self.before = {}
         self.expr_before = {}
 
@@ -67,8 +68,9 @@ class MustFlow:
             return facts
         if isinstance(s, ast.If):
             f = self.facts_of_expr(s.test, facts)
-            a = self.block(s.body, f)
-            b = self.block(s.orelse, f)
+            pos, neg = self.test_facts(s.test)
+            a = self.block(s.body, frozenset(f | pos))
+            b = self.block(s.orelse, frozenset(f | neg))
             return meet(a, b)
         if isinstance(s, (ast.For, ast.AsyncFor)):
             f = self.facts_of_expr(s.iter, facts)
@@ -84,8 +86,9 @@ class MustFlow:
             return out
         if isinstance(s, ast.While):
             f = self.facts_of_expr(s.test, facts)
+            pos, neg = self.test_facts(s.test)
             self.loop_stack.append([])
-            body_out = self.block(s.body, f)
+            body_out = self.block(s.body, frozenset(f | pos))
             breaks = self.loop_stack.pop()
             infinite = isinstance(s.test, ast.Constant) and bool(s.test.value)
             out = TOP if infinite else meet(f, body_out)
@@ -144,9 +147,9 @@ def call_name(node):
     return None
 
 
-def facts_before(fn, target, gen, kill=None):
+def facts_before(fn, target, gen, kill=None, test_facts=None):
     """facts holding on all paths when `target` (a statement or an expression inside fn) starts"""
-    mf = MustFlow(gen, kill)
+    mf = MustFlow(gen, kill, test_facts)
     mf.run(fn)
     if id(target) in mf.before:
         return mf.before[id(target)]
